@@ -530,6 +530,14 @@ def check(pid, tier, seed):
                    len(violations))
     print(f"[{pid} {tier}] theorems {discharged}/{obligations}, cases {total}, agree {agree}, distinct-nontrivial {len(distinct)}, "
           f"known-findings {len(known_hit)}, violations {len(violations)}, {time.time() - t0:.1f}s")
+    if not violations and not os.environ.get("VERIF_KEEP_CASES"):
+        # the case and verdict files of a thorough run are gigabytes: what matters is in the evidence file and the replays
+        for f in os.listdir(wd):
+            if f.endswith((".cases", ".cases2", ".verd", ".lhs")) or re.search(r"\.cases\.\d+$", f):
+                try:
+                    os.remove(os.path.join(wd, f))
+                except OSError:
+                    pass
     return 1 if violations else 0
 
 
